@@ -3,7 +3,7 @@
 From Coq Require Import ZArith QArith List Bool.
 Require Import QV.C17.Model.
 Import ListNotations.
-Open Scope Z_scope.
+Local Open Scope Z_scope.
 
 Definition steps_t := list (Q * list Q).       (* (start time, per-channel voltage) *)
 
@@ -64,7 +64,7 @@ Definition scale_steps (tr : list (Q * Q)) (st : steps_t) : steps_t := map (fun 
 (* ---------------------------------------------------------------------------------------------------------------- *)
 (* relations used by the scaling theorem: a history whose channel-k values are (v - off_k) / amp_k of another one
    (values up to == on Q, times and NaN positions identical) *)
-Open Scope Q_scope.
+Local Open Scope Q_scope.
 Definition scale_of (tr : list (Q * Q)) (ch : nat) (v : Q) : Q :=
   match nth_error tr ch with Some (amp, off) => (v - off) / amp | None => v end.
 
@@ -114,8 +114,8 @@ Fixpoint aff_at (base : Q) (factors : list Q) (idx : list Z) : Q :=
 
 (* ---------------------------------------------------------------------------------------------------------------- *)
 (* the property as a statement about the model *)
-Close Scope Q_scope.
-Open Scope Z_scope.
+Local Close Scope Q_scope.
+Local Open Scope Z_scope.
 
 Fixpoint all2b {A B} (f : A -> B -> bool) (a : list A) (b : list B) : bool :=
   match a, b with
